@@ -259,7 +259,46 @@ func NormalizeFrequencies(freqs []int, alphabet []int, totalFreq, scale int) (in
 		}
 	}
 
-	freqs[idxMax] = max(freqs[idxMax]-delta, 1)
+	if delta == 0 {
+		return alphabetSize, nil
+	}
+
+	if inc > 0 {
+		// Remaining deficit: give it to the most frequent symbol
+		freqs[idxMax] += delta
+		return alphabetSize, nil
+	}
+
+	// Remaining excess: take it from the most frequent symbol if possible
+	if freqs[idxMax] > delta {
+		freqs[idxMax] -= delta
+		return alphabetSize, nil
+	}
+
+	// Otherwise, take from any frequency above the quantum (never zero out a symbol).
+	// Always terminates with delta == 0 because alphabetSize <= scale.
+	for delta > 0 {
+		adjustments := 0
+
+		for _, idx := range alphabet[0:alphabetSize] {
+			if freqs[idx] <= 1 {
+				continue
+			}
+
+			freqs[idx]--
+			adjustments++
+			delta--
+
+			if delta == 0 {
+				break
+			}
+		}
+
+		if adjustments == 0 {
+			break
+		}
+	}
+
 	return alphabetSize, nil
 }
 
